@@ -53,31 +53,32 @@ var Patterns = []string{
 
 // Opts steers the random schema generator.
 type Opts struct {
-	MaxDepth      int
-	Hazard        bool // allow triggers of recorded defects
-	NoFormats     bool
-	NoEnums       bool
-	NoDefaults    bool
-	NoRefDefaults bool // no default keyword next to a $ref
-	NoAddProps    bool
-	NoNullable    bool
-	NoRefs        bool
-	NoCompose     bool // allOf/anyOf
-	NoNestArr     bool
-	IntLimits     bool               // use 8/16/32/64-bit limits as integer bounds
-	Descs         bool               // attach descriptions/titles
-	YAMLSafe      bool               // avoid values that are hazardous under the YAML path
-	W             map[string]float64 // weight overrides by subject kind
-	PNullable     float64            // probability of making a typed subject nullable (default 0.15)
-	PDefault      float64            // probability of a default on an optional property (default 0.25)
-	PAddProps     float64            // probability of additionalProperties on an object (default 0.2)
-	DescPool      []string           // description texts (with Descs)
-	Titles        []string           // title texts
-	Names         []string           // property-name pool (default: plain ASCII names)
-	AnyBranch     bool               // anyOf/allOf branches may also be map objects, arrays, primitives or null
-	AddPropsTrue  bool               // objects may say additionalProperties: true
-	NullType      bool               // properties/items of type "null"
-	RootKinds     bool               // the root may be an array, a scalar or an enum instead of an object
+	MaxDepth        int
+	Hazard          bool // allow triggers of recorded defects
+	NoFormats       bool
+	NoEnums         bool
+	NoDefaults      bool
+	ComposeDefaults bool // defaults on the properties of allOf/anyOf branches (generation-level checks only)
+	NoRefDefaults   bool // no default keyword next to a $ref
+	NoAddProps      bool
+	NoNullable      bool
+	NoRefs          bool
+	NoCompose       bool // allOf/anyOf
+	NoNestArr       bool
+	IntLimits       bool               // use 8/16/32/64-bit limits as integer bounds
+	Descs           bool               // attach descriptions/titles
+	YAMLSafe        bool               // avoid values that are hazardous under the YAML path
+	W               map[string]float64 // weight overrides by subject kind
+	PNullable       float64            // probability of making a typed subject nullable (default 0.15)
+	PDefault        float64            // probability of a default on an optional property (default 0.25)
+	PAddProps       float64            // probability of additionalProperties on an object (default 0.2)
+	DescPool        []string           // description texts (with Descs)
+	Titles          []string           // title texts
+	Names           []string           // property-name pool (default: plain ASCII names)
+	AnyBranch       bool               // anyOf/allOf branches may also be map objects, arrays, primitives or null
+	AddPropsTrue    bool               // objects may say additionalProperties: true
+	NullType        bool               // properties/items of type "null"
+	RootKinds       bool               // the root may be an array, a scalar or an enum instead of an object
 }
 
 // Gen is a random schema generator.
@@ -760,6 +761,8 @@ func (g *Gen) Compose(depth int) *Schema {
 			b.Props = append(b.Props, Prop{name, p})
 			if r.Chance(0.6) {
 				b.Required = append(b.Required, name)
+			} else if g.O.ComposeDefaults && r.Chance(0.5) {
+				g.addDefault(p)
 			}
 		}
 		if g.O.AnyBranch && r.Chance(0.4) {
